@@ -8,7 +8,7 @@ def run(tier, seed):
     rep = Report('C03', tier, seed)
     from ..replay import sim_native
     rep.add(util.native_ob('native:simple-contagion-rates-and-selection', 'EoN/simulation.py:Gillespie_simple_contagion', sim_native.c03_native,
-                           '7 model specifications (SIS, weighted SIR, SIRS, SEIR, two competing diseases, a same-status pair rule, rate functions) x directed and undirected '
+                           '9 model specifications (SIS, weighted recurrent SIS, SIRS with rate functions, weighted SIR, SIRS, SEIR, two competing diseases, a same-status pair rule, asymmetric rate functions) x directed and undirected '
                            '5-node graphs x 6 random initial conditions; scripted random source: (a) at EVERY step the waiting time is drawn with the sum of the rates of all '
                            'enabled transitions of the current statuses (recomputed from the specification), exactly one node changes and the change is an enabled transition; '
                            '(b) over a grid of 400 values of the selecting uniform draw each transition type is chosen for a fraction of the draws equal to its rate share +- 2/400'))
